@@ -3,6 +3,10 @@
 History/fault explorer: a realtime source run writes a file database; from it the harness derives every importer
 database of the announced family (exact agent set, supersets, subsets, and one database per (agent, epoch) with exactly
 that record removed, each also combined with extra unrelated agents) and runs the real importer scenario against each.
+The importer scenario's own agent set also changes during the run: every (agent, removal step, re-addition step) history
+and every late joiner, against complete databases and databases with one record of that agent removed.
+Scenario epochs on and off the whole second are run against databases that also hold records (ephemerides and observations)
+at instants within a second of every epoch: only the record stored under exactly the epoch's timestamp may be used.
 """
 from __future__ import annotations
 
@@ -25,10 +29,24 @@ RULE = (
     "source run (4 agents + 2 unrelated agents, estimation on, file DB) -> derived importer DBs: exact set, +1/+2 "
     "unrelated agents, subset (an agent absent at all epochs), and for EVERY (imported agent, epoch) of the horizon a DB "
     "with exactly that ephemeris row removed, each gap also with +1 and +2 unrelated agents; x mixes (targets imported, "
-    "sensors imported, both); observation import with realtime observation off. Oracle: eci_state == DB row after "
-    "every step; MissingEphemerisError in exactly the step of the gap; stored observations of epoch t_k reach the "
+    "sensors imported, both); observation import with realtime observation off. Agent-set histories during an importer "
+    "run (scenario_step events): EVERY (imported agent, removal step r, re-addition under the same id with another "
+    "configured state at step a >= r or never) x DB (exact, +2 unrelated, that agent's row removed at EVERY epoch g), and "
+    "late joiners (a target / a sensor absent at the start, added at EVERY step a) x DB (with its rows, +1 unrelated, "
+    "without its rows, its row removed at every epoch g); full product for mix both, gap-free exact-DB re-additions and "
+    "all joiners for the single-class mixes. Sub-second family: scenario start 0 / 0.5 / 0.001 / 0.999 s past the whole second "
+    "x DB that also holds, next to EVERY epoch, (different) records of every agent and (different) copies of every "
+    "observation at an instant +-1, +-0.5, +-0.25, +-0.001, +-0.0005 s away (one offset at a time and all "
+    "together; own rows before / behind the foreign ones in table order) x (no gap, own records of a step missing for all "
+    "agents, for one target, for one sensor - all offsets: at EVERY step); observation import on the same DBs. "
+    "Oracle: eci_state == DB row of exactly that agent and timestamp after "
+    "every step for every imported agent that is part of the scenario in that step; MissingEphemerisError in exactly the "
+    "first step in which an imported agent that is part of the scenario has no row (a gap of an agent while it is out "
+    "of the run does not stop it); stored observations of epoch t_k reach the "
     "estimate-update submission of their target at step k and no other; file hash and logical dump unchanged. "
-    "non-trivial = DB agent set != scenario agent set, or a gap, or imported observations; distinct by construction."
+    "non-trivial = DB agent set != scenario agent set, or a gap, or imported observations, or the run reached the step "
+    "in which the scenario's agent set changed, or the DB holds foreign records within a second of the epochs; distinct "
+    "by construction."
 )
 ASSUMPTIONS = [
     "importer databases are SQLite files produced by resonaate's own output of a realtime run (same start, same step)",
@@ -50,10 +68,11 @@ def _agents(st):
     return tg, ss
 
 
-def _source_db(path, n, dt=DT):
-    """Realtime run with all six agents, estimation on, written to ``path``."""
+def _source_db(path, n, dt=DT, truth_only=None):
+    """Realtime run with all six agents, estimation on (unless ``truth_only``), written to ``path``."""
     tg, ss = _agents(START)
-    cfg = scen.config(START, n + 1, [scen.engine(1, tg, ss)], physics=dt, seed=3, truth_only=dt != DT)
+    cfg = scen.config(START, n + 1, [scen.engine(1, tg, ss)], physics=dt, seed=3,
+                      truth_only=dt != DT if truth_only is None else truth_only)
     sc = scen.build(cfg, db_path=path)
     for _ in range(n):
         sc.stepForward()
@@ -71,19 +90,24 @@ def _derive(src, dst, keep_agents, gap=None):
     con.execute("DELETE FROM tasks")
     con.execute("DELETE FROM events")
     if gap is not None:
-        agent, step = gap
-        iso = (START + timedelta(seconds=step * DT)).isoformat(timespec="microseconds")
-        cur = con.execute("SELECT julian_date FROM epochs WHERE timestampISO = ?", (iso,))
-        jd = cur.fetchone()[0]
-        if agent == "all":
-            # the whole epoch is missing: no ephemeris row of ANY agent (related or not) at that epoch
-            n = con.execute("DELETE FROM truth_ephemerides WHERE julian_date = ?", (jd,)).rowcount
-            assert n == len(keep_agents), (agent, step, n)
-        else:
-            n = con.execute("DELETE FROM truth_ephemerides WHERE agent_id = ? AND julian_date = ?", (agent, jd)).rowcount
-            assert n == 1, (agent, step, n)
+        _remove_gap(con, gap, len(keep_agents))
     con.commit()
     con.close()
+
+
+def _remove_gap(con, gap, n_agents):
+    """Remove the record of (agent, step) - or of every agent at that step - at exactly the epoch of that step."""
+    agent, step = gap
+    iso = (START + timedelta(seconds=step * DT)).isoformat(timespec="microseconds")
+    cur = con.execute("SELECT julian_date FROM epochs WHERE timestampISO = ?", (iso,))
+    jd = cur.fetchone()[0]
+    if agent == "all":
+        # the whole epoch is missing: no ephemeris row of ANY agent (related or not) at that epoch
+        n = con.execute("DELETE FROM truth_ephemerides WHERE julian_date = ?", (jd,)).rowcount
+        assert n == n_agents, (agent, step, n)
+    else:
+        n = con.execute("DELETE FROM truth_ephemerides WHERE agent_id = ? AND julian_date = ?", (agent, jd)).rowcount
+        assert n == 1, (agent, step, n)
 
 
 def _db_rows(path):
@@ -174,6 +198,19 @@ def items(tier, seed):
     # spans of a day and more (12 h steps): the days part of the elapsed time matters when a record is taken over
     for mix in ("targets", "sensors", "both"):
         out.append(("ephem", mix, 3, ["exact", "plus1"], 43200))
+    # the agent set of the importer scenario changes during the run (removal, re-addition under the same id, late joiners)
+    for mix in ("both", "targets", "sensors"):
+        for chunk in fw.chunked([list(h) for h in _life_histories(n, mix)], 24):
+            out.append(("life", mix, n, chunk))
+    # scenario epochs on and off the whole second; the database also holds records at instants next to every epoch
+    for us in FRACTIONS_US:
+        for mix in ("both", "targets", "sensors"):
+            for chunk in fw.chunked([list(v) for v in _subsec_variants(n, mix)], 20):
+                out.append(("subsec", "ephem", mix, n, us, chunk))
+        for order in ("decoys_last", "decoys_first"):
+            out.append(("subsec", "obs", "none", n, us, [[list(OFFSETS_S), order, None]]))
+    for order in ("decoys_last", "decoys_first"):
+        out.append(("subsec", "obs", "targets", n, 500000, [[list(OFFSETS_S), order, None]]))
     for v in ("exact", "plus1"):
         out.append(("obs", "none", n, [v]))
         out.append(("obs", "targets", n, [v]))
@@ -188,8 +225,22 @@ def items(tier, seed):
 
 def bounds(tier, seed):
     n = 4 if tier == "quick" else 6
+    life = {mix: _life_histories(n, mix) for mix in ("both", "targets", "sensors")}
     return {"steps": n, "db_variants": len(_variants(n)), "mixes": ["targets", "sensors", "both"],
-            "imported_agents": list(TARGETS + SENSORS), "unrelated_agents": list(EXTRAS)}
+            "imported_agents": list(TARGETS + SENSORS), "unrelated_agents": list(EXTRAS),
+            "sub_second": {"start_fraction_us": list(FRACTIONS_US), "foreign_record_offsets_s": list(OFFSETS_S),
+                           "table_orders": ["decoys_last", "decoys_first"],
+                           "ephemeris_runs": {mix: len(FRACTIONS_US) * len(_subsec_variants(n, mix)) for mix in ("both", "targets", "sensors")},
+                           "observation_runs": 2 * len(FRACTIONS_US) + 2},
+            "agent_set_histories": {
+                "readd": "imported agent removed at step r in 1..steps, added again under the same id (other configured "
+                         "state) at step a in r..steps or never; db exact / +2 unrelated / its record removed at each epoch g",
+                "join": f"target {JOIN_TARGET} / sensor {JOIN_SENSOR} not in the scenario at its start, added at step a in "
+                        "1..steps; db with its records (and +1 unrelated), without any, with its record removed at each epoch g",
+                "runs_per_mix": {mix: len(v) for mix, v in life.items()},
+                "readd_runs": sum(1 for v in life.values() for h in v if h[0] == "readd"),
+                "join_runs": sum(1 for v in life.values() for h in v if h[0] == "join"),
+            }}
 
 
 def _imported_ids(mix):
@@ -199,6 +250,35 @@ def _imported_ids(mix):
     if mix in ("sensors", "both"):
         ids += list(SENSORS)
     return ids
+
+
+def _step_findings(agents, ids, rows, k, dt, clock_time, clock_jd):
+    """First (state, epoch, Earth-fixed view) finding among the imported agents ``ids`` after step ``k``."""
+    from resonaate.physics.transforms.methods import ecef2lla, eci2ecef  # noqa: PLC0415
+
+    bad_state, bad_epoch, bad_views = None, None, None
+    iso = (START + timedelta(seconds=k * dt)).isoformat(timespec="microseconds")
+    for a in ids:
+        want = rows.get((a, iso))
+        got = np.asarray(agents[a].eci_state, dtype=float)
+        if want is None or not np.array_equal(got, want):
+            bad_state = bad_state or (k, a, got.tolist(), None if want is None else want.tolist())
+        # ... and its Earth-fixed views are those of that state AT that epoch
+        want_ecef = np.asarray(eci2ecef(got, START + timedelta(seconds=k * dt)), dtype=float)
+        got_ecef = np.asarray(agents[a].ecef_state, dtype=float)
+        got_lla = np.asarray(agents[a].lla_state, dtype=float)
+        want_lla = np.asarray(ecef2lla(want_ecef), dtype=float)
+        # tolerance: the agent's epoch is recovered from a Julian date (resolution ~4e-5 s); Earth rotation moves
+        # the Earth-fixed position by omega * |r| * dt -> allow 1e-4 s of epoch noise (a step is 60 s or more)
+        tol_km = 7.2921159e-5 * float(np.linalg.norm(got[:3])) * 1e-4
+        if np.abs(got_ecef[:3] - want_ecef[:3]).max() > tol_km or np.abs(got_lla[:2] - want_lla[:2]).max() > 7.2921159e-5 * 1e-4:
+            bad_views = bad_views or (k, a, {"ecef_position_error_km": float(np.abs(got_ecef[:3] - want_ecef[:3]).max()),
+                                              "lat_lon_error_rad": float(np.abs(got_lla[:2] - want_lla[:2]).max())})
+        # the agent that took the record over is AT the epoch of that record (what its output row is filed under)
+        t_a, jd_a = float(agents[a].time), float(agents[a].julian_date_epoch)
+        if abs(t_a - k * dt) > 1e-3 or abs(jd_a - clock_jd) > 2e-9:
+            bad_epoch = bad_epoch or (k, a, {"agent_time": t_a, "clock_time": clock_time, "agent_jd": jd_a, "clock_jd": clock_jd})
+    return bad_state, bad_epoch, bad_views
 
 
 def _run_ephem(res, item, tmp):
@@ -234,31 +314,9 @@ def _run_ephem(res, item, tmp):
             except Exception as exc:  # noqa: BLE001
                 failed_at, err_type = k, type(exc).__name__
                 break
-            iso = (START + timedelta(seconds=k * dt)).isoformat(timespec="microseconds")
             agents = {**sc.target_agents, **sc.sensor_agents}
-            for a in imported:
-                want = rows.get((a, iso))
-                got = np.asarray(agents[a].eci_state, dtype=float)
-                if want is None or not np.array_equal(got, want):
-                    bad_state = bad_state or (k, a, got.tolist(), None if want is None else want.tolist())
-                # ... and its Earth-fixed views are those of that state AT that epoch
-                from resonaate.physics.transforms.methods import ecef2lla, eci2ecef  # noqa: PLC0415
-
-                want_ecef = np.asarray(eci2ecef(got, START + timedelta(seconds=k * dt)), dtype=float)
-                got_ecef = np.asarray(agents[a].ecef_state, dtype=float)
-                got_lla = np.asarray(agents[a].lla_state, dtype=float)
-                want_lla = np.asarray(ecef2lla(want_ecef), dtype=float)
-                # tolerance: the agent's epoch is recovered from a Julian date (resolution ~4e-5 s); Earth rotation moves
-                # the Earth-fixed position by omega * |r| * dt -> allow 1e-4 s of epoch noise (a step is 60 s or more)
-                tol_km = 7.2921159e-5 * float(np.linalg.norm(got[:3])) * 1e-4
-                if np.abs(got_ecef[:3] - want_ecef[:3]).max() > tol_km or np.abs(got_lla[:2] - want_lla[:2]).max() > 7.2921159e-5 * 1e-4:
-                    bad_views = bad_views or (k, a, {"ecef_position_error_km": float(np.abs(got_ecef[:3] - want_ecef[:3]).max()),
-                                                      "lat_lon_error_rad": float(np.abs(got_lla[:2] - want_lla[:2]).max())})
-                # the agent that took the record over is AT the epoch of that record (what its output row is filed under)
-                t_a, jd_a = float(agents[a].time), float(agents[a].julian_date_epoch)
-                if abs(t_a - k * dt) > 1e-3 or abs(jd_a - float(sc.clock.julian_date_epoch)) > 2e-9:
-                    bad_epoch = bad_epoch or (k, a, {"agent_time": t_a, "clock_time": float(sc.clock.time), "agent_jd": jd_a,
-                                                      "clock_jd": float(sc.clock.julian_date_epoch)})
+            st, ep, vw = _step_findings(agents, imported, rows, k, dt, float(sc.clock.time), float(sc.clock.julian_date_epoch))
+            bad_state, bad_epoch, bad_views = bad_state or st, bad_epoch or ep, bad_views or vw
             res.observe(sorted((a, np.asarray(agents[a].eci_state).tobytes()) for a in agents))
         nontriv = gap is not None or set(keep) != set(TARGETS + SENSORS)
         ok_fail = (failed_at == expect_fail) and (failed_at is None or err_type == "MissingEphemerisError")
@@ -337,8 +395,296 @@ def _run_ephem(res, item, tmp):
         os.unlink(path)
 
 
-def _run_obs(res, item, tmp):
-    _, mix, n, names = item
+def _drive(res, group, sig, case, cfg, path, rows, members, n, one, *, want_set=None, nontrivial=None, outcome_prefix=""):
+    """Run the importer scenario ``cfg`` against the file ``path`` for ``n`` steps and record the ephemeris clauses.
+
+    ``members(k)`` = ids of the imported agents that are part of the scenario while step k is taken; ``rows`` = the
+    (agent, timestamp) -> state table read back from the file; ``want_set(k)`` = expected agent ids after step k.
+    """
+    sha0, dump0 = _sha(path), _logical_dump(path)
+    # expected first failing step: an imported agent that is part of the scenario in that step has no record there
+    expect_fail = None
+    for k in range(1, n + 1):
+        iso = (START + timedelta(seconds=k * DT)).isoformat(timespec="microseconds")
+        if any((y, iso) not in rows for y in members(k)):
+            expect_fail = k
+            break
+    sc = scen.build(cfg, importer_db_path=f"sqlite:///{path}")
+    failed_at, err_type, bad_state, bad_epoch, bad_views, bad_set = None, None, None, None, None, None
+    for k in range(1, n + 1):
+        try:
+            sc.stepForward()
+            sc.saveDatabaseOutput()
+        except Exception as exc:  # noqa: BLE001
+            failed_at, err_type = k, type(exc).__name__
+            break
+        agents = {**sc.target_agents, **sc.sensor_agents}
+        if want_set is not None and sorted(agents) != want_set(k):
+            bad_set = bad_set or (k, sorted(agents), want_set(k))
+            break
+        st, ep, vw = _step_findings(agents, members(k), rows, k, DT, float(sc.clock.time), float(sc.clock.julian_date_epoch))
+        bad_state, bad_epoch, bad_views = bad_state or st, bad_epoch or ep, bad_views or vw
+        res.observe(sorted((y, np.asarray(agents[y].eci_state).tobytes()) for y in agents))
+    nontriv = True if nontrivial is None else bool(nontrivial(failed_at))
+    ok_fail = (failed_at == expect_fail) and (failed_at is None or err_type == "MissingEphemerisError")
+    if expect_fail is None:
+        label = "ok" if ok_fail else "unexpected_error"
+    elif failed_at is None:
+        label = "gap_not_reported"
+    elif failed_at != expect_fail:
+        label = "gap_reported_in_wrong_step"
+    else:
+        label = "ok" if ok_fail else f"wrong_exception_{err_type}"
+    if want_set is not None:
+        res.case(f"{group}/agent_set_follows_events", case, bad_set is None, nontrivial=nontriv,
+                 signature=f"{sig}/agent_set_differs", observed=bad_set, item=one)
+    res.case(
+        f"{group}/missing_record_stops_run",
+        case,
+        ok_fail,
+        nontrivial=nontriv,
+        signature=f"{sig}/{label}",
+        observed={"failed_at_step": failed_at, "exception": err_type},
+        expected={"failed_at_step": expect_fail, "exception": "MissingEphemerisError" if expect_fail else None},
+        outcome=f"{outcome_prefix}{label}/{'stops' if expect_fail else 'runs'}",
+        item=one,
+    )
+    res.case(
+        f"{group}/state_equals_record",
+        case,
+        bad_state is None,
+        nontrivial=nontriv,
+        signature=f"{sig}/state_differs_from_record" if not (bad_state and bad_state[3] is None) else f"{sig}/continued_with_stale_state",
+        observed=bad_state,
+        expected="eci_state of every imported agent that is part of the scenario == importer row for that agent and epoch",
+        item=one,
+    )
+    res.case(f"{group}/agent_epoch_equals_record_epoch", case, bad_epoch is None, nontrivial=nontriv,
+             signature=f"{sig}/agent_epoch_differs", observed=bad_epoch, item=one)
+    res.case(f"{group}/earth_fixed_views_at_record_epoch", case, bad_views is None, nontrivial=nontriv,
+             signature=f"{sig}/earth_fixed_views_stale", observed=bad_views, item=one)
+    # (the importer connections of this run are deliberately NOT disposed, see _run_ephem)
+    res.case(f"{group}/importer_unchanged", case, _sha(path) == sha0 and _logical_dump(path) == dump0,
+             signature="C19/importer_db_modified", observed={"sha_same": _sha(path) == sha0}, item=one)
+    res.states += (failed_at or n) + 1
+    res.transitions += failed_at or n
+    res.traces += 1
+
+
+# ----------------------------------------------------------------------------- agent set changes during an importer run
+JOIN_TARGET = EXTRAS[0]   # has ephemeris rows in the source database, is NOT part of the importer scenario at its start
+JOIN_SENSOR = SENSORS[1]  # "join" histories of this sensor start the scenario without it
+
+
+def _other_config(agent):
+    """Config of ``agent`` for an addition event: deliberately NOT the state its database records describe."""
+    if agent in SENSORS:
+        if agent == 20001:
+            return scen.ground_sensor(20001, 12.5, 23.0, fov={"fov_shape": "conic", "cone_angle": 20.0})
+        return scen.space_sensor(20002, [0.0, 9600.0, 300.0], [-4.3, 0.0, 4.6], kind="optical")
+    return scen.target_eci(agent, *scen.overhead_orbit(START, 13.0, 27.0, 23500.0, 70.0))
+
+
+def _life_histories(n, mix):
+    """Every history (kind, agent, removed_at, added_at, gap_step, db) of the announced family for ``mix``.
+
+    (mix "both": everything below; mixes "targets" / "sensors", where the other class is propagated: the readd histories
+    on the exact db without gap, and all join histories.)
+
+    readd: imported agent of the scenario removed at step r (agent_removal event at the epoch of step r), added again under
+           the SAME id at step a >= r (a == r: both events in one step) or never; db exact / plus2 without gap, and for
+           EVERY epoch g a db with exactly that agent's record at g removed.
+    join:  an agent that is not in the scenario at its start is added at step a; db with its records (with and without
+           one more unrelated agent), db without any record of it, and for every epoch g its record at g removed.
+    """
+    out = []
+    for x in _imported_ids(mix):
+        for r in range(1, n + 1):
+            for a in [*range(r, n + 1), None]:
+                out.append(("readd", x, r, a, None, "exact"))
+                if mix != "both":
+                    continue
+                out.append(("readd", x, r, a, None, "plus2"))
+                for g in range(1, n + 1):
+                    out.append(("readd", x, r, a, g, "exact"))
+    joins = ([JOIN_TARGET] if mix in ("targets", "both") else []) + ([JOIN_SENSOR] if mix in ("sensors", "both") else [])
+    for x in joins:
+        has, has_more, lacks = ("plus1", "plus2", "exact") if x == JOIN_TARGET else ("exact", "plus1", "without")
+        for a in range(1, n + 1):
+            out.append(("join", x, None, a, None, has))
+            out.append(("join", x, None, a, None, has_more))
+            out.append(("join", x, None, a, None, lacks))
+            for g in range(1, n + 1):
+                out.append(("join", x, None, a, g, has))
+    return out
+
+
+def _life_present(hist, k):
+    """Is the history's agent part of the scenario while step ``k`` is taken (events of epoch t_k act before the import)."""
+    _kind, _x, r, a, _g, _db = hist
+    return (r is not None and k < r) or (a is not None and k >= a)
+
+
+def _life_events(hist):
+    kind, x, r, a, _g, _db = hist
+    base = {"scope": "scenario_step", "scope_instance_id": 0, "tasking_engine_id": 1}
+    ev = []
+    if r is not None:
+        ev.append({**base, "start_time": scen.iso(START + timedelta(seconds=r * DT)), "event_type": "agent_removal",
+                   "agent_id": x, "agent_type": "sensor" if x in SENSORS else "target"})
+    if a is not None:
+        when = scen.iso(START + timedelta(seconds=a * DT))
+        if x in SENSORS:
+            ev.append({**base, "start_time": when, "event_type": "sensor_addition", "sensor_agent": _other_config(x)})
+        else:
+            ev.append({**base, "start_time": when, "event_type": "target_addition", "target_agent": _other_config(x)})
+    return ev
+
+
+def _run_life(res, item, tmp):
+    _, mix, n, hists = item
+    src = os.path.join(tmp, "source.sqlite3")
+    _source_db(src, n, truth_only=True)  # only the ephemeris records matter here
+    base = list(TARGETS + SENSORS)
+    for hist in hists:
+        hist = tuple(hist)
+        kind, x, r, a, g, dbname = hist
+        keep = {"exact": base, "plus1": base + [EXTRAS[0]], "plus2": base + list(EXTRAS), "without": [y for y in base if y != x]}[dbname]
+        path = os.path.join(tmp, "importer.sqlite3")
+        _derive(src, path, keep, None if g is None else (x, g))
+        rows, _ = _db_rows(path)
+        cfg = _importer_config(n, mix, events=_life_events(hist))
+        if kind == "join" and x in SENSORS:
+            cfg["engines"][0]["sensors"] = [y for y in cfg["engines"][0]["sensors"] if y["id"] != x]
+        imported = _imported_ids(mix) + ([x] if kind == "join" and x not in SENSORS and mix in ("targets", "both") else [])
+        imported = sorted(set(imported))
+        case = {"mix": mix, "history": kind, "agent": x, "removed_at_step": r, "added_at_step": a, "gap_step": g, "db": dbname,
+                "steps": n}
+
+        def members(k, hist=hist, x=x, imported=imported):
+            return [y for y in imported if y != x or _life_present(hist, k)]
+
+        one = ("life", mix, n, [list(hist)])
+        _drive(res, "life", f"C19/life/{kind}", case, cfg, path, rows, members, n, one,
+               want_set=lambda k, hist=hist, x=x: sorted(y for y in {*TARGETS, *SENSORS, x} if y != x or _life_present(hist, k)),
+               # non-trivial: the run reached the step in which the scenario's agent set changed
+               nontrivial=lambda failed_at, r=r, a=a: failed_at is None or failed_at >= min(v for v in (r, a) if v is not None),
+               outcome_prefix=f"{kind}/")
+        os.unlink(path)
+
+
+# ----------------------------------------------------- scenario epochs off the whole second; records at neighbouring instants
+START0 = START
+FRACTIONS_US = (0, 500000, 1000, 999000)  # sub-second part of the scenario start (scenario timestamps carry milliseconds)
+# Offsets (s) of the foreign records from every epoch of the run. Together with the start fractions they put a record in
+# the same second before / after the epoch, on the whole second of the epoch, on the next whole second, in the same and in
+# the neighbouring millisecond, and one second away. Smallest offset 0.5 ms (12 ulp of the Julian date column, a double
+# with ~4e-5 s resolution): the column must still tell the records of two epochs apart, or the database itself would be
+# ambiguous (asserted when the records are written).
+OFFSETS_S = (-1.0, -0.5, -0.25, -0.001, -0.0005, 0.0005, 0.001, 0.25, 0.5, 1.0)
+DECOY_SHIFT = (7.0, -5.0, 3.0, 0.01, -0.02, 0.03)  # a foreign record differs from the epoch's own by (j + 1) x this
+
+
+class _StartAt:
+    """The whole harness (source run, importer run, expected timestamps) starts ``us`` microseconds after START0."""
+
+    def __init__(self, us):
+        self.us = int(us)
+
+    def __enter__(self):
+        global START  # noqa: PLW0603
+        START = START0 + timedelta(microseconds=self.us)
+
+    def __exit__(self, *exc):
+        global START  # noqa: PLW0603
+        START = START0
+
+
+def _add_decoys(path, offsets, order):
+    """For every epoch of the file add, per offset, an epoch ``offset`` seconds away holding a (different) record of every
+    agent and a (different) copy of every observation. ``order`` = "decoys_first": the epoch's own rows are moved behind
+    the foreign ones in table order (a reader that takes the first / the last match meets a foreign row either way)."""
+    con = sqlite3.connect(path)
+    true = con.execute('SELECT "timestampISO", julian_date FROM epochs ORDER BY julian_date').fetchall()
+    seen = {jd for _, jd in true}
+    obs_cols = [r[1] for r in con.execute("PRAGMA table_info(observations)") if r[1] != "id"]
+    for j, off in enumerate(offsets):
+        f = float(j + 1)
+        for iso, jd in true:
+            iso2 = (datetime.fromisoformat(iso) + timedelta(seconds=off)).isoformat(timespec="microseconds")
+            jd2 = jd + off / 86400.0
+            assert jd2 not in seen and iso2 != iso, (iso, off)
+            seen.add(jd2)
+            con.execute('INSERT INTO epochs ("timestampISO", julian_date) VALUES (?, ?)', (iso2, jd2))
+            con.execute(
+                "INSERT INTO truth_ephemerides (julian_date, agent_id, pos_x_km, pos_y_km, pos_z_km, vel_x_km_p_sec, "
+                "vel_y_km_p_sec, vel_z_km_p_sec) SELECT ?, agent_id, pos_x_km + ?, pos_y_km + ?, pos_z_km + ?, "
+                "vel_x_km_p_sec + ?, vel_y_km_p_sec + ?, vel_z_km_p_sec + ? FROM truth_ephemerides WHERE julian_date = ? ORDER BY id",
+                (jd2, *[f * v for v in DECOY_SHIFT], jd),
+            )
+            # the copy of an observation: other angles, and another sensor position (the loader drops observations of one
+            # target made from one position as duplicates - a foreign one must not hide behind that)
+            sel = ", ".join({"julian_date": "?", "azimuth_rad": "azimuth_rad + ?", "pos_x_km": "pos_x_km + ?"}.get(c, c) for c in obs_cols)
+            order_args = {"julian_date": jd2, "azimuth_rad": 1e-3 * f, "pos_x_km": f}
+            args = [order_args[c] for c in obs_cols if c in order_args]
+            con.execute(f"INSERT INTO observations ({', '.join(obs_cols)}) SELECT {sel} FROM observations WHERE julian_date = ? ORDER BY id",
+                        (*args, jd))
+    if order == "decoys_first":
+        jds = ",".join(repr(jd) for _, jd in true)
+        for table in ("epochs", "truth_ephemerides", "observations"):
+            n_moved = con.execute(f"UPDATE {table} SET id = id + 1000000 WHERE julian_date IN ({jds})").rowcount
+            assert n_moved > 0 or table == "observations", table
+    con.commit()
+    con.close()
+
+
+def _subsec_variants(n, mix):
+    """(offsets, order, gap): one foreign instant at a time and all of them together; both table orders; without gap, with
+    the epoch's own records of step g missing for all agents (only foreign ones are left around it), and - all instants
+    together - with the own record of one target / one sensor missing, at EVERY step g."""
+    out = []
+    for order in ("decoys_last", "decoys_first"):
+        if mix == "both":
+            for off in OFFSETS_S:
+                out.append(([off], order, None))
+                out.append(([off], order, ["all", 2]))
+        out.append((list(OFFSETS_S), order, None))
+        for g in range(1, n + 1) if mix == "both" else (2,):
+            out.append((list(OFFSETS_S), order, ["all", g]))
+            if mix == "both":
+                out.append((list(OFFSETS_S), order, [TARGETS[1], g]))
+                out.append((list(OFFSETS_S), order, [SENSORS[0], g]))
+    return out
+
+
+def _run_subsec_ephem(res, item, tmp):
+    _, _, mix, n, us, variants = item
+    src = os.path.join(tmp, "source.sqlite3")
+    _source_db(src, n, truth_only=True)
+    base = list(TARGETS + SENSORS)
+    imported = _imported_ids(mix)
+    for offsets, order, gap in variants:
+        path = os.path.join(tmp, "importer.sqlite3")
+        # the foreign records are copies of the complete set; only then are the epoch's OWN records of the gap removed
+        _derive(src, path, base, None)
+        _add_decoys(path, offsets, order)
+        if gap is not None:
+            con = sqlite3.connect(path)
+            _remove_gap(con, (gap[0], gap[1]), len(base))
+            con.commit()
+            con.close()
+        rows, _ = _db_rows(path)
+        case = {"mix": mix, "steps": n, "start_fraction_us": us, "foreign_record_offsets_s": list(offsets), "table_order": order,
+                "gap": gap}
+        one = ("subsec", "ephem", mix, n, us, [[list(offsets), order, gap]])
+        _drive(res, "subsec", "C19/subsec/ephem", case, _importer_config(n, mix), path, rows, lambda k: imported, n, one,
+               outcome_prefix="gap/" if gap else "")
+        os.unlink(path)
+
+
+def _run_obs(res, item, tmp, decoys=None):
+    """``decoys`` = (start fraction us, offsets, table order) for the items of the sub-second family (kind "obs")."""
+    kind, mix, n, names = item if decoys is None else ("obs", item[2], item[3], ["exact"])
     src = os.path.join(tmp, "source.sqlite3")
     _source_db(src, n)
     variants = {v[0]: v for v in _variants(n)}
@@ -346,7 +692,9 @@ def _run_obs(res, item, tmp):
         _, keep, gap = variants[name]
         path = os.path.join(tmp, "importer.sqlite3")
         _derive(src, path, keep, gap)
-        if item[0] == "obs_rt":
+        if decoys is not None:
+            _add_decoys(path, decoys[1], decoys[2])
+        if kind == "obs_rt":
             # tag the stored observations so they are distinguishable from the identical ones the run makes itself
             con = sqlite3.connect(path)
             con.execute("UPDATE observations SET elevation_rad = elevation_rad + 1e-4")
@@ -355,11 +703,15 @@ def _run_obs(res, item, tmp):
         _, obs = _db_rows(path)
         n_obs_total = sum(len(v) for v in obs.values())
         sha0, dump0 = _sha(path), _logical_dump(path)
-        realtime = item[0] == "obs_rt"
-        swap = item[0] == "obs_swap"
+        realtime = kind == "obs_rt"
+        swap = kind == "obs_swap"
         cfg = _importer_config(n, mix, realtime_obs=realtime, truth_only=False, events=_swap_events() if swap else None)
         case = {"mix": mix, "db": name, "steps": n, "stored_observations": n_obs_total, "realtime_observation": realtime,
                 "sensor_20001_swapped_at_step": SWAP_STEP if swap else None}
+        tag = ""
+        if decoys is not None:
+            case.update(start_fraction_us=decoys[0], foreign_record_offsets_s=list(decoys[1]), table_order=decoys[2])
+            tag = f"|{decoys[0]}|{decoys[2]}"
         configured_r = {x["id"]: np.array(x["sensor"]["covariance"], dtype=float) for x in _agents(START)[1]}
         sc = scen.build(cfg, importer_db_path=f"sqlite:///{path}")
         err = None
@@ -387,7 +739,7 @@ def _run_obs(res, item, tmp):
                             {**case, "step": k, "target": est.simulation_id, "sensor": o.sensor_id},
                             ok_r,
                             nontrivial=swap and o.sensor_id == 20001 and k >= SWAP_STEP,
-                            key=f"{item[0]}|{mix}|{name}|{k}|{est.simulation_id}|{o.sensor_id}",
+                            key=f"{kind}|{mix}|{name}|{k}|{est.simulation_id}|{o.sensor_id}{tag}",
                             signature="C19/obs/noise_model/stale" if swap else "C19/obs/noise_model/wrong",
                             observed=np.diag(got_r).tolist(),
                             expected=np.diag(want_r).tolist(),
@@ -410,8 +762,8 @@ def _run_obs(res, item, tmp):
                     {**case, "step": k, "target": tid, "n_stored": len(want)},
                     got == want,
                     nontrivial=len(want) > 0,
-                    key=f"{mix}|{name}|{k}|{tid}",
-                    signature=f"C19/obs/{'lost' if len(got) < len(want) else 'extra' if len(got) > len(want) else 'different'}",
+                    key=f"{mix}|{name}|{k}|{tid}{tag}",
+                    signature=f"C19/{'subsec/' if decoys is not None else ''}obs/{'lost' if len(got) < len(want) else 'extra' if len(got) > len(want) else 'different'}",
                     observed=got[:3],
                     expected=want[:3],
                     outcome=f"n={len(want)}",
@@ -468,6 +820,15 @@ def run_item(item):
     try:
         if item[0] == "ephem":
             _run_ephem(res, item, tmp)
+        elif item[0] == "life":
+            _run_life(res, item, tmp)
+        elif item[0] == "subsec":
+            with _StartAt(item[4]):
+                if item[1] == "ephem":
+                    _run_subsec_ephem(res, item, tmp)
+                else:
+                    for offsets, order, _gap in item[5]:
+                        _run_obs(res, item, tmp, decoys=(item[4], offsets, order))
         elif item[0] in ("obs", "obs_rt", "obs_swap"):
             _run_obs(res, item, tmp)
             _check_write_api(res, tmp)
